@@ -12,6 +12,9 @@ def build():
     checks, na = [], []
     for pid in ALL:
         c = CHECKS.get(pid)
+        meta = VERIF / "mbv" / "props" / f"{pid.lower()}.meta.json"
+        if meta.exists():
+            c = json.loads(meta.read_text())
         if c and (VERIF / "mbv" / "props" / f"{pid.lower()}.py").exists():
             checks.append({
                 "property_id": pid,
